@@ -936,6 +936,19 @@ impl BatchState {
 
 /// Pack size (C++ AGC default)
 const PACK_CARDINALITY: usize = 50;
+
+/// Priority boost that puts a sync token in front of the contigs of its sample in the queue
+const SYNC_TOKEN_PRIORITY_BOOST: i32 = 1_000_000;
+
+/// Priority of the first sample; later samples and packs count down from here. It leaves room
+/// for the sync-token boost: starting at i32::MAX made the boosted priority overflow at the first
+/// pack boundary (a panic with overflow checks, a token with the LOWEST priority without them).
+const FIRST_SAMPLE_PRIORITY: i32 = i32::MAX - SYNC_TOKEN_PRIORITY_BOOST - 1;
+
+/// Queue priority of a sync token that belongs to a sample with the given priority
+fn sync_token_priority(sample_priority: i32) -> i32 {
+    sample_priority + SYNC_TOKEN_PRIORITY_BOOST
+}
 /// First 16 groups are raw-only (no LZ encoding)
 const NO_RAW_GROUPS: u32 = 16;
 
@@ -1017,7 +1030,7 @@ pub struct StreamingQueueCompressor {
     buffered_seg_part: Arc<BufferedSegPart>, // Per-group buffers for parallel Phase 1
     // Fallback minimizers map for segments with no terminator match (matches C++ AGC map_fallback_minimizers)
     map_fallback_minimizers: Arc<Mutex<BTreeMap<u64, Vec<(u64, u64)>>>>, // kmer -> [(front, back)] candidate group keys (BTreeMap for determinism)
-    next_priority: Arc<Mutex<i32>>, // Decreases for each new sample (starts at i32::MAX)
+    next_priority: Arc<Mutex<i32>>, // Decreases for each new sample (starts at FIRST_SAMPLE_PRIORITY)
     next_sequence: Arc<std::sync::atomic::AtomicU64>, // Increases for each contig (FASTA order)
     global_contig_count: Arc<AtomicUsize>, // GLOBAL contig counter for synchronization (C++ AGC: cnt_contigs_in_sample)
 
@@ -1224,7 +1237,7 @@ impl StreamingQueueCompressor {
         let sample_priorities: Arc<RwLock<BTreeMap<String, i32>>> =
             Arc::new(RwLock::new(BTreeMap::new()));
         let last_sample_name: Arc<Mutex<Option<String>>> = Arc::new(Mutex::new(None)); // Track last sample for boundary detection
-        let next_priority = Arc::new(Mutex::new(i32::MAX)); // Start high, decrease for each sample
+        let next_priority = Arc::new(Mutex::new(FIRST_SAMPLE_PRIORITY)); // Start high, decrease for each sample
         let next_sequence = Arc::new(std::sync::atomic::AtomicU64::new(0)); // Increases for each contig (FASTA order)
         let global_contig_count = Arc::new(AtomicUsize::new(0)); // GLOBAL counter across all samples (C++ AGC: cnt_contigs_in_sample)
 
@@ -1635,7 +1648,7 @@ impl StreamingQueueCompressor {
                         // Use large priority boost to ensure sync tokens are processed BEFORE any contigs
                         // With +1, contigs with same priority but higher cost were being popped first
                         // This caused barrier deadlock when some workers exited before others got sync tokens
-                        sample_priority: new_priority + 1_000_000,
+                        sample_priority: sync_token_priority(new_priority),
                         cost: 0,
                         sequence,
                         is_sync_token: true,
@@ -1683,7 +1696,7 @@ impl StreamingQueueCompressor {
                                 sample_name: sample_name.clone(),
                                 contig_name: String::from("<SYNC>"),
                                 data: Vec::new(), // Empty data for sync token
-                                sample_priority: sample_priority + 1_000_000, // Much higher priority than any contigs
+                                sample_priority: sync_token_priority(sample_priority), // Much higher priority than any contigs
                                 cost: 0, // No cost for sync tokens
                                 sequence,
                                 is_sync_token: true,
